@@ -45,6 +45,7 @@ OutOfDomain(e) ==
   \/ e.op = "RemoveAttacker" /\ ((e.h \notin Known /\ e.res = "ok") \/ TwinAtk(e.h))
   \/ e.op = "AddEntryPoint" /\ (e.h \notin LiveAtk \/ e.a \notin LiveH)
   \/ e.op = "RemoveEntryPoint" /\ (e.h \notin LiveAtk \/ e.res # "ok")
+  \/ e.op = "RemoveEntryPoint" /\ e.a \notin LiveH /\ ~(e.a \in DOMAIN vGone /\ vGone[e.a].name # NONE)   \* an object that never had a name
   \/ e.op = "SetEntryPoints" /\ (e.h \notin LiveAtk \/ \E i \in DOMAIN e.ep : e.ep[i].a \notin LiveH)
   \/ e.op \in {"SetDefense", "SetAssetExtras"} /\ e.h \notin LiveH
   \/ e.op = "SetDefense" /\ e.h \in LiveH /\ e.d \notin Defenses(Lng, TypeOfH(e.h))
